@@ -211,3 +211,102 @@ Definition violations (K : known) (tb : table) : list (string * string * string)
 Definition known_is_violation (tb : table) (K : known) : bool :=
   forallb (fun k => existsb (fun a => existsb (fun b =>
      if is_known [k] a b then (if conflict a b then negb (compatible tb a b) else false) else false) (t_sites tb)) (t_sites tb)) K.
+
+(* ---- the happens-before edges of the go statement and of sync.WaitGroup ----
+   They are rendered by the close -> receive edge on virtual channels, one per go statement G of the
+   source ("go:G": the go statement closes it, the first action of the new goroutine receives from it:
+   "the go statement that starts a new goroutine is synchronized before the start of the goroutine's
+   execution") and one per goroutine G that calls W.Done() ("wg:W@G": Done closes it, the return of
+   W.Wait() receives from it: "a call to Done synchronizes before the return of any Wait call that it
+   unblocks"; the translator requires W.Add before the go statement, so a Wait cannot return before G's
+   Done).  "end:G" / "ret:F" are closed by the last action of goroutine G / of the function's own thread:
+   sites that are all followed by that one close run in that one thread. *)
+Definition go_chan (g : string) : chann := ("go:" ++ g)%string.
+Definition wg_chan (w g : string) : chann := ("wg:" ++ w ++ "@" ++ g)%string.
+Definition Go (g : string) : act := Close (go_chan g).
+Definition Start (g : string) : act := RecvC (go_chan g).
+Definition WgDone (w g : string) : act := Close (wg_chan w g).
+Definition WgWait (w g : string) : act := RecvC (wg_chan w g).
+
+(* ---- why a pair of sites is compatible (the branch of [compatible] that accepts it) ---- *)
+Definition lock_covers (b : site) (p : lockn * mode) : bool :=
+  let l := fst p in
+  match snd p with
+  | MX => has_lock (s_locks b) l MX || has_lock (s_locks b) l MR
+  | MR => has_lock (s_locks b) l MX
+  end.
+Definition orders (tb : table) (a b : site) (x : before) : bool :=
+  before_valid tb a x && existsb (String.eqb (before_chan x)) (eff_after b).
+Definition same_closer (b : site) (x : before) : bool :=
+  match x with BPO c => existsb (is_bpo c) (eff_before b) | BGuard _ _ => false end.
+
+Inductive reason :=
+| RLock (l : lockn)              (* a common lock, one side exclusive *)
+| RPublish                       (* construction, then publication of the object, then the other site *)
+| RGo (c : chann)                (* one site precedes the go statement that started the other's goroutine *)
+| RWaitGroup (c : chann)         (* one site precedes a Done, the other follows the Wait *)
+| RClose (c : chann)             (* one site precedes close(c), the other has observed c closed *)
+| RCtor                          (* both belong to the construction phase (one thread) *)
+| RSameThread (c : chann)        (* both belong to the one goroutine / function thread that ends with c *)
+| RBothBeforeClose (c : chann).  (* both are followed by the one close(c): the closing thread *)
+
+Definition chan_reason (c : chann) : reason :=
+  if String.eqb c pub then RPublish
+  else if prefix "go:" c then RGo c
+  else if prefix "wg:" c then RWaitGroup c
+  else RClose c.
+Definition po_reason (c : chann) : reason :=
+  if String.eqb c pub then RCtor
+  else if prefix "end:" c || prefix "ret:" c then RSameThread c
+  else RBothBeforeClose c.
+
+Definition why (tb : table) (a b : site) : option reason :=
+  match find (lock_covers b) (s_locks a) with
+  | Some p => Some (RLock (fst p))
+  | None =>
+  match find (orders tb a b) (eff_before a) with
+  | Some x => Some (chan_reason (before_chan x))
+  | None =>
+  match find (orders tb b a) (eff_before b) with
+  | Some x => Some (chan_reason (before_chan x))
+  | None =>
+  match find (same_closer b) (eff_before a) with
+  | Some x => Some (po_reason (before_chan x))
+  | None => None
+  end end end end.
+
+(* what the table says about a compatible pair, in words of the table itself *)
+Definition justified (tb : table) (a b : site) : Prop :=
+  (exists l m1 m2, In (l, m1) (s_locks a) /\ In (l, m2) (s_locks b) /\ (m1 = MX \/ m2 = MX)) \/
+  (exists x, In x (eff_before a) /\ before_valid tb a x = true /\ In (before_chan x) (eff_after b)) \/
+  (exists x, In x (eff_before b) /\ before_valid tb b x = true /\ In (before_chan x) (eff_after a)) \/
+  (exists c, In (BPO c) (eff_before a) /\ In (BPO c) (eff_before b)).
+
+Definition reason_tag (r : option reason) : string :=
+  match r with
+  | None => "none"
+  | Some (RLock _) => "lock"
+  | Some RPublish => "publication"
+  | Some (RGo _) => "go-statement"
+  | Some (RWaitGroup _) => "waitgroup"
+  | Some (RClose _) => "channel-close"
+  | Some RCtor => "construction"
+  | Some (RSameThread _) => "same-thread"
+  | Some (RBothBeforeClose _) => "closing-thread"
+  end.
+
+Definition bump (k : string) (h : list (string * Z)) : list (string * Z) :=
+  (fix go (h : list (string * Z)) : list (string * Z) :=
+     match h with
+     | [] => [(k, 1)]
+     | (k', n) :: r => if String.eqb k k' then (k', n + 1) :: r else (k', n) :: go r
+     end) h.
+
+(* histogram of the accepting branch over all ordered conflicting pairs of the table *)
+Definition reason_histogram (tb : table) : list (string * Z) :=
+  fold_left (fun h a => fold_left (fun h b =>
+     if conflict a b then bump (reason_tag (why tb a b)) h else h) (t_sites tb) h) (t_sites tb) [].
+
+(* the fields that are written after construction, each with the tags of the reasons that order its
+   post-construction writes against the other sites *)
+Definition late_write (s : site) : bool := is_write s && negb (s_init s).
